@@ -220,6 +220,8 @@ def task_afterloop(task):
                 gr["printed"] = buf.getvalue().strip().splitlines()[0] if buf.getvalue().strip() else ""
                 gr["after_loop"] = str(value)
                 gr["after_loop_value"] = _rat(value) if not sp.sympify(value).free_symbols else "?" + str(value)
+                if sp.sympify(value).free_symbols:
+                    gr["after_loop_values"] = values(value, nvals)
                 gr["is_exact"] = bool(is_exact)
                 gr["monom"] = str(monom)
                 gr["order"] = int(order)
